@@ -75,7 +75,9 @@ fn run_interpreter(t: &TxCtx) -> Result<Result<Vec<Cond>, String>, Failure> {
                 return Err(format!("INFERRED-DESCRIPTOR-MISMATCH {} pays to {} but the spent output is {}", d, d.script_pubkey().to_hex_string(), spk.to_hex_string()));
             }
         }
-        let prevouts = Prevouts::All(&t.prevouts);
+        // pre-taproot inputs need only their own previous output: hand it over both ways
+        let single = !spk.is_p2tr() && (t.tx.input.len() + t.idx + txin.witness.len()) % 2 == 1;
+        let prevouts = if single { Prevouts::One(t.idx, t.prevouts[t.idx].clone()) } else { Prevouts::All(&t.prevouts) };
         let mut out = Vec::new();
         for c in interp.iter(&secp, &t.tx, t.idx, &prevouts) {
             match c {
